@@ -100,14 +100,34 @@ def run(ctx: Ctx, env):
         n_ctor += 1
         interp = Interp(repo, env.schema)
 
-        def setup(it, fn=fn, ci=ci):
-            args = [ObjV(ci.qual, {}, "exc")] + [Sym("arg", a.arg) for a in fn.args.args[1:]]
-            return ci.module, fn, args, {}, ci.qual
+        # a parameter annotated as a (SLY) Token is evaluated once per kind of payload the lexer puts into tokens:
+        # an AST node of any class a token action builds, or the matched text
+        tok_params = [a.arg for a in fn.args.args[1:] if a.annotation is not None and "Token" in ast.unparse(a.annotation)]
+        node_kinds = sorted({s[1] for shapes in env.kindflow.token_shapes.values() for s in shapes if s[0] == "node"})
+        variants = [None] if not tok_params else (["text"] + (["node"] if node_kinds else []))
+        for variant in variants:
+            def setup(it, fn=fn, ci=ci, variant=variant):
+                args = [ObjV(ci.qual, {}, "exc")]
+                for a in fn.args.args[1:]:
+                    if a.arg in tok_params and variant is not None:
+                        t = TokV("<any>")
+                        t.attrs["type"] = Sym("toktype", hint="str")
+                        t.attrs["lineno"] = Sym("lineno", hint="int")
+                        t.attrs["index"] = Sym("index", hint="int")
+                        if variant == "node":
+                            t.attrs["value"] = NodeV("token.value", set(node_kinds))
+                        args.append(t)
+                    else:
+                        ann = ast.unparse(a.annotation) if a.annotation is not None else ""
+                        hint = "str" if ann in ("str", "Optional[str]") else "int" if ann in ("int", "Optional[int]") else None
+                        args.append(Sym("arg", a.arg, hint=hint))
+                return ci.module, fn, args, {}, ci.qual
 
-        for x in interp.explore(setup):
-            ctx.check(x.outcome == "return", "O1.exception-ctor-total", f"{ci.name}.__init__",
-                      f"constructor raises {x.value!r}", x.where)
-            _events_total(ctx, env, "O1.exception-ctor-total", f"{ci.name}.__init__", x, ci.module)
+            for x in interp.explore(setup):
+                ctx.check(x.outcome == "return", "O1.exception-ctor-total", f"{ci.name}.__init__",
+                          f"constructor raises {x.value!r}" + (f" for a token carrying {'an AST node' if variant == 'node' else 'text'}" if variant else ""),
+                          x.where, "'x'2023-02-30 (a syntax error at a literal the lexer accepts but that has no Python value)" if variant == "node" else None)
+                _events_total(ctx, env, "O1.exception-ctor-total", f"{ci.name}.__init__", x, ci.module)
     ctx.analysed["exception_ctors"] = n_ctor
 
     # ---- O2 token actions -------------------------------------------------------------------------------
